@@ -112,6 +112,11 @@ def gen_decode(rng, i):
             d['rep1'] = sub
             d['rep2'] = {'inner': clone(sub), 'again': [clone(sub)]}
         docs.append(d)
+    if rng.random() < 0.12:
+        # an empty map as a whole document (in TOML: an empty stream part / an empty file)
+        docs.insert(rng.randint(0, len(docs)), {})
+        if rng.random() < 0.3:
+            docs = [{}]
     if i % 40 == 3 and isinstance(docs[-1], dict):
         # one physical line longer than 64 KiB (a long string; in flow style the whole document is one line)
         docs[-1]['long'] = 'x' * rng.choice([65530, 65536, 70000, 131080])
